@@ -27,8 +27,8 @@ RULE = ("case = (method class, constraint set, speculative, split, first request
 ASSUMPTIONS = ["points of the pool are identical or separated by much more than the plug-in's allclose tolerance", "the scripted algorithm calls the callables the way SciPy does (1-D points; (V,S) batches for vectorized DE)"]
 EXHAUSTIVE = {"quick": True, "thorough": True}
 BOUNDS = {"quick": {"script_length": 3}, "thorough": {"script_length": 4}}
-REQUIRED = {"quick": {"scripts": 20000, "values_compared": 60000, "epochs_checked": 40000, "speculative_pairs_compared": 5000, "constraint_first_at_new_point": 3000, "gradient_first_at_new_point": 3000, "batch_requests": 1000, "batch_requests_in_reused_buffer": 600, "scripts_with_reused_point_array": 10000, "scripts_over_close_points_with_tolerance_option": 600, "scripts_over_points_with_large_coordinates_of_either_sign": 180, "scripts_with_all_failed_evaluations": 100, "real_method_runs": 36, "__nontrivial__": 150},
-            "thorough": {"scripts": 600000, "values_compared": 2000000, "epochs_checked": 1500000, "speculative_pairs_compared": 150000, "constraint_first_at_new_point": 100000, "gradient_first_at_new_point": 100000, "batch_requests": 30000, "batch_requests_in_reused_buffer": 20000, "scripts_with_reused_point_array": 300000, "scripts_over_close_points_with_tolerance_option": 15000, "scripts_over_points_with_large_coordinates_of_either_sign": 4000, "scripts_with_all_failed_evaluations": 2500, "real_method_runs": 600, "__nontrivial__": 1500}}
+REQUIRED = {"quick": {"scripts": 20000, "values_compared": 60000, "epochs_checked": 40000, "speculative_pairs_compared": 5000, "constraint_first_at_new_point": 3000, "gradient_first_at_new_point": 3000, "batch_requests": 1000, "batch_requests_in_reused_buffer": 600, "scripts_with_reused_point_array": 10000, "scripts_over_close_points_with_tolerance_option": 600, "scripts_over_points_with_large_coordinates_of_either_sign": 180, "scripts_with_all_failed_evaluations": 100, "scripts_with_requests_outside_the_variable_bounds": 200, "real_method_runs": 36, "__nontrivial__": 150},
+            "thorough": {"scripts": 600000, "values_compared": 2000000, "epochs_checked": 1500000, "speculative_pairs_compared": 150000, "constraint_first_at_new_point": 100000, "gradient_first_at_new_point": 100000, "batch_requests": 30000, "batch_requests_in_reused_buffer": 20000, "scripts_with_reused_point_array": 300000, "scripts_over_close_points_with_tolerance_option": 15000, "scripts_over_points_with_large_coordinates_of_either_sign": 4000, "scripts_with_all_failed_evaluations": 2500, "scripts_with_requests_outside_the_variable_bounds": 5000, "real_method_runs": 600, "__nontrivial__": 1500}}
 
 V = 2
 FAR_POOL = np.array([[0.1, -0.2], [0.35, 0.15], [-0.3, 0.4]])
@@ -171,7 +171,7 @@ def _play(obs, cls, spec, script, reqs, record_only=False):
     from ropt.ensemble_evaluator import EnsembleEvaluator  # noqa: PLC0415
     from ropt.optimization import EnsembleOptimizer  # noqa: PLC0415
 
-    key = repr(sorted(spec["optimizer"].items())) + repr(spec.get("linear")) + repr(spec["n_con"]) + repr(spec["x0"])
+    key = repr(sorted(spec["optimizer"].items())) + repr(spec.get("linear")) + repr(spec["n_con"]) + repr(spec["x0"]) + repr(spec.get("lb"))
     if key not in _CFG_CACHE:
         _CFG_CACHE[key] = (ens.make_config(spec), Reference(spec))
     cfg, ref = _CFG_CACHE[key]
@@ -328,6 +328,12 @@ def run_case(case, obs):
                 spec["nan"] = [{"call": None, "r": r, "p": -1, "col": 0} for r in range(spec["R"])]
                 spec["_all_failed"] = True
                 obs.count("scripts_with_all_failed_evaluations", 40)
+            if cls not in ("de", "de_vec", "cobyla") and rng.random() < 0.6:      # (ropt refuses COBYLA with variable bounds)
+                # finite variable bounds that some points of the pool lie outside of (the start included): an algorithm may ask
+                # anywhere (line searches overshoot, COBYLA and Nelder-Mead probe outside), and it is told the value there
+                spec["lb"], spec["ub"] = [float(np.sort(POOL[:, 0])[1]), -100.0], [100.0, 100.0]      # one point of the pool lies below
+                if np.any((POOL < np.array(spec["lb"])) | (POOL > np.array(spec["ub"]))):
+                    obs.count("scripts_with_requests_outside_the_variable_bounds", 40)
             reqs = [(k, p) for k in _alphabet(cls, spec) for p in range(3)]
             scripts = [[int(x) for x in rng.integers(len(reqs), size=int(rng.integers(5, 9)))] for _ in range(40)]
             return _run_scripts(case, obs, cls, cons, speculative, split, spec, reqs, scripts, tol)
